@@ -37,6 +37,8 @@ ASSUMPTIONS = [
     'RefLines (independent logical-line reader) decides which line an error must name and which blocks are open',
     "'@' is legal only inside string literals, bracket variables and comments",
     'line texts are compared modulo whitespace runs (the joining of continuation parts is not fixed by the property)',
+    "a 'Missing end<kind> statement' error is held to the header of the innermost open block only when RefLines' keyword "
+    'scan names a block of the same kind (probes missing_end_header_checked / missing_end_scan_disagrees_on_kind)',
 ]
 
 
